@@ -14,9 +14,29 @@
 //	    configuration or entirely by the configuration the payload describes --
 //	    never by an empty, half-built or otherwise different engine.
 //
-// A run in which the injected fault hit the roll-back itself (after the update
-// had already failed for another reason) has two independent failures; no
-// implementation without a journal can restore then, so (1)/(2) are not demanded.
+//	(3) a probe transaction that is let through to the upstream has a request
+//	    phase and a response phase, run at two different points of the update:
+//	    both phases are served by the same configuration (old, or the one the
+//	    payload describes);
+//	(4) while an update that ends up rejected is in progress, no transaction is
+//	    served by the configuration that is being rejected.
+//
+// Three ways in which the gateway is known not to meet this are classified
+// with signatures of their own (open known findings, known_findings.d/C08.json);
+// the classifiers use only what the hooks report:
+//
+//	second-failure-in-rollback:Restore      the injected fault fired at a hook call
+//	    made after Restore had been called (the update had failed for another
+//	    reason before): every hit of such a run gets this signature;
+//	txn-split-across-switch:processResponse  the two phases of a transaction were
+//	    served by two different complete configurations AND at least one
+//	    engine.published event lies between them;
+//	rejected-config-served:reloadFlows       the update failed, the engine was
+//	    published at least twice during it (the new one, then the one rebuilt by
+//	    the roll-back), and a transaction arriving between the first and the
+//	    last publication was served by the configuration the payload describes.
+//
+// Anything else is a violation.
 package main
 
 import (
@@ -75,13 +95,23 @@ func viewStr(v []ViewEnt) string {
 	return "{" + strings.Join(p, ", ") + "}"
 }
 
+const (
+	sigSecondFailure = "second-failure-in-rollback:Restore"
+	sigSplit         = "txn-split-across-switch:processResponse"
+	sigRejected      = "rejected-config-served:reloadFlows"
+)
+
 func monitor(k *Case) []c.Hit {
 	var hits []c.Hit
+	// a second, independent failure inside the roll-back (F-C08h)
+	second := k.FaultFired && k.RollbackAt >= 0 && k.Fault >= k.RollbackAt
 	add := func(sig, dem, obs string) {
+		if second {
+			obs = "[the injected fault fired at hook call #" + fmt.Sprint(k.Fault) + ", after Restore had started at #" +
+				fmt.Sprint(k.RollbackAt) + "; would be " + sig + "] " + obs
+			sig = sigSecondFailure
+		}
 		hits = append(hits, c.Hit{Signature: sig, Demanded: dem, Observed: obs, Case: k})
-	}
-	if k.FaultFired && k.RollbackAt >= 0 && k.Fault >= k.RollbackAt {
-		return nil // second, independent failure inside the roll-back
 	}
 	old := k.Arrivals[0].View
 	last := k.Arrivals[len(k.Arrivals)-1].View
@@ -115,10 +145,13 @@ func monitor(k *Case) []c.Hit {
 			}
 		}
 		// the places the payload's own file names point at, inspected directly; one
-		// below box that differs is in the walk's diff already
+		// below box that differs is in the walk's diff already (a regular file that
+		// replaced a directory or the other way round shows there as added / deleted
+		// files; an empty directory that appeared or disappeared is not a file)
 		for _, l := range k.Landings {
 			walked := l.Path != ".." && !strings.HasPrefix(l.Path, "../")
-			if l.ShaBefor == l.ShaAfter || (walked && l.ShaBefor != "directory" && l.ShaAfter != "directory") {
+			noFile := func(x string) bool { return x == "absent" || x == "directory" }
+			if l.ShaBefor == l.ShaAfter || walked || (noFile(l.ShaBefor) && noFile(l.ShaAfter)) {
 				continue
 			}
 			diff = append(diff, fmt.Sprintf("path %s (payload %s name %q) was %s, is %s",
@@ -149,13 +182,30 @@ func monitor(k *Case) []c.Hit {
 				"after: "+viewStr(last))
 		}
 	}
+	isOld := func(v []ViewEnt) bool { return sameView(v, old) }
+	isNew := func(v []ViewEnt) bool { return sameView(v, described) }
 	for _, a := range k.Arrivals {
-		if sameView(a.View, old) || sameView(a.View, described) {
+		if isOld(a.View) {
 			continue
 		}
 		at := a.At
 		if i := strings.Index(at, "#"); i >= 0 {
 			at = at[:i]
+		}
+		if isNew(a.View) {
+			if k.Status == 200 {
+				continue
+			}
+			// the update was rejected, yet this transaction got the rejected configuration
+			sig := "rejected-config-served-outside-switch-window:" + at
+			if k.PubsTotal >= 2 && a.Pubs > 0 && a.Pubs < k.PubsTotal {
+				sig = sigRejected
+			}
+			add(sig, fmt.Sprintf("status %d: while and after the update is rejected the running flows keep behaving as before %s",
+				k.Status, viewStr(old)),
+				fmt.Sprintf("a transaction arriving at %s (after publication %d of %d) was served by the rejected configuration %s",
+					a.At, a.Pubs, k.PubsTotal, viewStr(a.View)))
+			break
 		}
 		sig := "mixed-engine-served:" + at
 		if len(a.View) == 0 {
@@ -163,6 +213,24 @@ func monitor(k *Case) []c.Hit {
 		}
 		add(sig, fmt.Sprintf("a transaction arriving at %s is served entirely by the old %s or entirely by the new %s configuration",
 			a.At, viewStr(old), viewStr(described)), "served by "+viewStr(a.View))
+		break
+	}
+	for _, sp := range k.Spans {
+		okPhase := func(v []ViewEnt) bool { return isOld(v) || isNew(v) }
+		dem := fmt.Sprintf("a transaction in flight during the update (request phase at %s, response phase at %s) is handled entirely by the old %s or entirely by the new %s configuration",
+			sp.From, sp.To, viewStr(old), viewStr(described))
+		obs := fmt.Sprintf("request phase served by %s, response phase by %s, %d engine publication(s) between the two",
+			viewStr(sp.Req), viewStr(sp.Resp), sp.Pubs)
+		switch {
+		case !okPhase(sp.Req) || !okPhase(sp.Resp):
+			add("mixed-engine-served:two-phase-transaction", dem, obs)
+		case sameView(sp.Req, sp.Resp):
+			continue
+		case sp.Pubs > 0:
+			add(sigSplit, dem, obs)
+		default:
+			add("txn-split-without-switch:processResponse", dem, obs)
+		}
 		break
 	}
 	return hits
